@@ -199,3 +199,81 @@ Example ex_extend :
   oa_metrics (wl_orbits (wl n_exact e_order ex_2e 10)) (a_orbits (analyze n_exact e_order ex_2e)) =
     L [ I 0%Z; L [I 0%Z; I 4%Z]; L [I 2%Z; I 4%Z]; L [I 2%Z; I 6%Z] ].
 Proof. vm_compute. repeat split; tauto. Qed.
+
+(** ---------- the reported orbits of a disconnected graph, semantically: no component swaps ---------- *)
+(** an automorphism of the whole graph that maps every component into itself *)
+Definition keeps_components (g : graph) (s : N -> N) : Prop :=
+  forall c x, In c (components g) -> In x c -> In (s x) c.
+
+Section Restrict.
+Variable fn : nlab -> N.
+Variable fe : elab -> N.
+Variable g : graph.
+Hypothesis Hwf : wf g.
+Variable c : list N.
+Hypothesis Hc : In c (components g).
+
+Lemma restriction_is_aut s :
+  is_automorphism fn fe g s -> keeps_components g s -> is_automorphism fn fe (induced_sub g c) s.
+Proof.
+  intros (S1 & S2 & S3 & S4) Hk.
+  assert (Hin : forall u, In u (node_ids (induced_sub g c)) -> In u (node_ids g) /\ In u c) by (intros u; apply induced_nodes_in).
+  split; [|split; [|split]].
+  - intros u Hu. destruct (Hin u Hu) as [Hun Huc]. apply induced_node; [apply S1; exact Hun | apply (Hk c u Hc Huc)].
+  - intros u v Hu Hv. apply S2; [apply (Hin u Hu) | apply (Hin v Hv)].
+  - intros u Hu. destruct (Hin u Hu) as [Hun Huc]. unfold lab_of.
+    rewrite (induced_label g c (s u) (Hk c u Hc Huc)), (induced_label g c u Huc). apply S3. exact Hun.
+  - intros u v Hu Hv. destruct (Hin u Hu) as [Hun Huc]. destruct (Hin v Hv) as [Hvn Hvc]. unfold adj_of.
+    rewrite (induced_adj g c (s u) (s v) (Hk c u Hc Huc) (Hk c v Hc Hvc)), (induced_adj g c u v Huc Hvc).
+    apply S4; assumption.
+Qed.
+
+Lemma extension_keeps_components s :
+  is_automorphism fn fe (induced_sub g c) s -> keeps_components g (extend_by_id c s).
+Proof.
+  intros (S1 & _) c' x Hc' Hx. unfold extend_by_id.
+  destruct (LGraph.mem x c) eqn:M; [|exact Hx].
+  apply LGraph.mem_spec in M.
+  assert (Hsx : In (s x) c).
+  { apply (induced_nodes_in g c (s x)). apply S1. apply induced_node; [apply (comp_nodes g Hwf c Hc); exact M | exact M]. }
+  destruct (components_spec g Hwf) as (_ & Hdisj & _).
+  rewrite <- (pairwise_disjoint_eq _ Hdisj c c' x Hc Hc' M Hx). exact Hsx.
+Qed.
+End Restrict.
+
+Theorem orbits_no_swaps (fn : nlab -> N) (fe : elab -> N) (g : graph) : wf g ->
+  forall o u v, In o (a_orbits (analyze fn fe g)) -> In u o ->
+    (In v o <-> exists s, is_automorphism fn fe g s /\ keeps_components g s /\ s u = v).
+Proof.
+  intros Hwf o u v Ho Hu. pose proof (wf_simple g Hwf) as Hs.
+  destruct (orbits_partition_all fn fe g Hwf) as (_ & P2 & _ & _ & P5).
+  destruct (le_lt_dec (length (components g)) 1) as [Hc|Hc].
+  - (* at most one component: every automorphism keeps it *)
+    destruct (analyze_orbits_connected fn fe g Hs Hc) as (_ & _ & _ & _ & H5).
+    rewrite (H5 o u v Ho Hu), (same_orbit_fun fn fe g Hs). split.
+    + intros (s & Hsa & Hun & ->). exists s. split; [exact Hsa|]. split; [|reflexivity].
+      intros c x Hcin Hx.
+      destruct (components_spec g Hwf) as (C1 & Hdisj & C3).
+      destruct Hsa as (S1 & _).
+      assert (Hxn : In x (node_ids g)) by exact (comp_nodes g Hwf c Hcin x Hx).
+      destruct (C3 (s x) (S1 x Hxn)) as (c' & Hc' & Hsx).
+      assert (c' = c).
+      { destruct (components g) as [|c0 [|c1 r]]; simpl in Hc; try lia; [destruct Hcin|].
+        destruct Hcin as [<-|[]]. destruct Hc' as [<-|[]]. reflexivity. }
+      subst c'. exact Hsx.
+    + intros (s & Hsa & _ & <-). exists s. split; [exact Hsa|]. split; [exact (P2 o u Ho Hu) | reflexivity].
+  - rewrite (P5 Hc o u v Ho Hu). split.
+    + intros (c & Hcin & Huc & Hrel).
+      apply (same_orbit_fun fn fe (induced_sub g c) (induced_simple g c Hs)) in Hrel.
+      destruct Hrel as (s & Hsa & Hun & ->).
+      exists (extend_by_id c s). split; [exact (component_aut_extends fn fe g Hwf c Hcin s Hsa)|].
+      split; [exact (extension_keeps_components fn fe g Hwf c Hcin s Hsa)|].
+      unfold extend_by_id. rewrite (proj2 (LGraph.mem_spec u c) Huc). reflexivity.
+    + intros (s & Hsa & Hk & <-).
+      destruct (components_spec g Hwf) as (_ & _ & C3).
+      destruct (C3 u (P2 o u Ho Hu)) as (c & Hcin & Huc).
+      exists c. split; [exact Hcin|]. split; [exact Huc|].
+      apply (same_orbit_fun fn fe (induced_sub g c) (induced_simple g c Hs)).
+      exists s. split; [exact (restriction_is_aut fn fe g c Hcin s Hsa Hk)|].
+      split; [apply induced_node; [exact (P2 o u Ho Hu) | exact Huc] | reflexivity].
+Qed.
